@@ -887,6 +887,14 @@ class VmapBatchHandler:
         vector_args = tuple(vector_args[1:])
         batch_axes = tuple(batch_axes[1:])
 
+        # The sampler sees batched parameters through broadcasting, which pairs
+        # lanes with parameters only if the mapped axis leads.
+        vector_args = tuple(
+            jnp.moveaxis(arg, axis, 0) if axis else arg
+            for arg, axis in zip(vector_args, batch_axes)
+        )
+        batch_axes = tuple(None if axis is None else 0 for axis in batch_axes)
+
         # Compute new sample shape
         n = static_dim_length(batch_axes, vector_args)
         outer_batch_dim = self._compute_outer_batch_dim(n, axis_size)
